@@ -20,7 +20,7 @@ import math as _math
 import ufo2ft.fontInfoData as _fid
 import z3
 from fontTools.misc.fixedTools import otRound as _otRound
-from pyvc.api import BOOL, CLASSES, CONTRACTS, INT, REAL, STR, Const, Dict, List, Loop, Opaque, Opt, Ref, Runtime, Set, Tuple, cls, contract, lemma, specfn, trusted
+from pyvc.api import BOOL, CLASSES, CONTRACTS, INT, REAL, STR, Const, Dict, List, Loop, Map, Opaque, Opt, Ref, Runtime, Set, Tuple, cls, contract, lemma, specfn, trusted
 from pyvc.core import PYOBJ, Unsupported, Val, lift
 from pyvc.ops import is_const
 from pyvc.symex import FuncRef
@@ -1100,27 +1100,23 @@ def _name_getName(ex, st, self, args, kwargs, node):
     'a record with that key exists'."""
     if len(args) != 4 or kwargs:
         raise Unsupported("name.getName: expected (nameID, platformID, platEncID, langID)", node)
-    recs = ex.read_field(st, self, "recs")
-    return _contains(ex, st, recs, _name_key(args, node), node)
-
-
-def _contains(ex, st, d, k, node):
-    s = d.ty.sort()
-    return Val(BOOL, z3.Select(s.dom(lift(d)), lift(k, d.ty.k)))
+    ks = ex.read_field(st, self, "keyset")
+    return Val(BOOL, z3.Select(lift(ks), lift(_name_key(args, node))))
 
 
 def _name_setName(ex, st, self, args, kwargs, node):
     """fontTools table__n_a_m_e.setName(string, nameID, platformID, platEncID, langID): the record with that key gets the
     string (replaced if it exists, appended otherwise)"""
-    from pyvc import models
-
     if len(args) != 5 or kwargs:
         raise Unsupported("name.setName: expected (string, nameID, platformID, platEncID, langID)", node)
     s = ex.deopt(args[0], st, node)
     if s.ty != STR:
         raise Unsupported(f"name.setName with a {s.ty} string", node)
+    k = lift(_name_key(args[1:], node))
+    ks = ex.read_field(st, self, "keyset")
     recs = ex.read_field(st, self, "recs")
-    ex.write_field(st, self, "recs", models.set_item(ex, st, recs, _name_key(args[1:], node), s, node), node)
+    ex.write_field(st, self, "keyset", Val(Set(NKEY), z3.Store(lift(ks), k, z3.BoolVal(True))), node)
+    ex.write_field(st, self, "recs", Val(Map(NKEY, STR), z3.Store(lift(recs), k, lift(s))), node)
     return Val.const(None)
 
 
@@ -1129,10 +1125,13 @@ def _native_recs(tbl):
 
 
 _NAMEC = CLASSES[lib.table_class("name")]
-_NAMEC.fields.setdefault("recs", Dict(NKEY, STR))
+# the records of the name table: `keyset` = the keys (nameID, platformID, platEncID, langID) present, `recs` = key -> string
+_NAMEC.fields.setdefault("recs", Map(NKEY, STR))
+_NAMEC.fields.setdefault("keyset", Set(NKEY))
 _NAMEC.methods.setdefault("getName", _name_getName)
 _NAMEC.methods.setdefault("setName", _name_setName)
 _NAMEC.views.setdefault("recs", _native_recs)
+_NAMEC.views.setdefault("keyset", lambda tbl: set(_native_recs(tbl)))
 
 
 def _ufo_namerec_getitem(ex, st, self, idx, node):
@@ -1151,10 +1150,11 @@ def _newTable_c16(ex, st, args, kwargs, node):
     tag = lib._need_tag(args[0], node)
     o = ex.new_object(st, lib.table_class(tag))
     if tag == "name":
-        ex.write_field(st, o, "recs", Val.const({}), node)
+        ex.write_field(st, o, "keyset", Val(Set(NKEY), z3.K(NKEY.sort(), z3.BoolVal(False))), node)
     return o
 
 
+@trusted("builtins.ord", "ord(c) of a one-character string: its code point (SMT-LIB str.to_code)")
 def _ord(ex, st, args, kwargs, node):
     """ord(c) of a one-character string: its code point (SMT-LIB str.to_code)"""
     (c,) = args
@@ -1196,11 +1196,12 @@ contract(
     props=P,
     params={"s": STR},
     returns=BOOL,
-    ensures={"iff": "result == any(ord(s[i]) > 65535 for i in range(len(s)))"},
-    canaries={"never": "not result"},
-    loops={"for c in s": Loop(index="i", invariants={"none-yet": "all(ord(s[a]) <= 65535 for a in range(i))"})},
+    ensures={"iff": "result == non_bmp(s)"},
+    canaries={"never": "not result", "first-only": "result == (len(s) > 0 and ord(s[0]) > 65535)"},
+    # everything before position i is in the BMP: whether a later character is not decides the answer
+    loops={"for c in s": Loop(index="i", invariants={"none-yet": "non_bmp_from(s, 0) == non_bmp_from(s, i)"})},
     models={"builtins.ord": _ord},
-    runtime=Runtime(lambda rng, n: ["", "a", "\U0001d518", "ab\U0001f600c", "￿", "\U00010000"] + ["".join(chr(rng.choice([rng.randint(32, 0x2FF), rng.randint(0xFF00, 0x10100), rng.randint(0x1F000, 0x1F6FF)])) for _ in range(rng.randint(0, 5))) for _ in range(n)], lambda d: {"s": d}),
+    runtime=Runtime(lambda rng, n: ["", "a", "\U0001d518", "ab\U0001f600c", "\uffff", "\U00010000", "\U00010000a", "a\uffff\U00010000"] + ["".join(chr(rng.choice([rng.randint(32, 0x2FF), rng.randint(0xFF00, 0x10100), rng.randint(0x1F000, 0x1F6FF)])) for _ in range(rng.randint(0, 5))) for _ in range(n)], lambda d: {"s": d}),
 )
 
 _NAME = "self.otf['name']"
@@ -1209,13 +1210,22 @@ _NAME = "self.otf['name']"
 _NAME_PROPS = []
 
 
+@specfn(BOOL, s=STR, i=INT)
+def non_bmp_from(s, i):
+    """some character of s at position i or later lies outside the Basic Multilingual Plane"""
+    if i < 0 or i >= len(s):
+        return False
+    return ord(s[i]) > 65535 or non_bmp_from(s, i + 1)
+
+
 @specfn(BOOL, s=STR)
 def non_bmp(s):
     """the string has a character outside the Basic Multilingual Plane (such records use platform encoding 10, else 1)"""
-    return any(ord(s[i]) > 65535 for i in range(len(s)))
+    return non_bmp_from(s, 0)
 
 
 _RECS = f"{_NAME}.recs"
+_KEYS = f"{_NAME}.keyset"
 _R = gi("openTypeNameRecords")
 
 
@@ -1284,17 +1294,17 @@ for _n in _NAME_IDS:
     # a Windows / English (3, 1|10, 0x409) record per non-empty value, unless an explicit name record has the same key
     _NAME_ENS[f"built:{_n}"] = (
         f"implies('name' in self.tables and {_present(_n)} and not any({_rk_is('a', _n)} for a in range(len({_R}))), "
-        f"{_bkey(_n)} in {_RECS} and {_RECS}[{_bkey(_n)}] == {_NAME_VALUES[_n][0]})"
+        f"{_bkey(_n)} in {_KEYS} and {_RECS}[{_bkey(_n)}] == {_NAME_VALUES[_n][0]})"
     )
 # every explicit name record is there; of several with the same key the last one wins
 _NAME_ENS["records"] = (
     f"implies('name' in self.tables, all(implies(not any({_rk_same('b', 'a')} for b in range(a + 1, len({_R}))), "
-    f"{_rk('a')} in {_RECS} and {_RECS}[{_rk('a')}] == {_R}[a]['string']) for a in range(len({_R}))))"
+    f"{_rk('a')} in {_KEYS} and {_RECS}[{_rk('a')}] == {_R}[a]['string']) for a in range(len({_R}))))"
 )
 _NAME_ENS["nothing-else"] = (
     f"implies('name' in self.tables, all(any({_rk('a')} == k for a in range(len({_R}))) or "
     + " or ".join(f"({_present(_n)} and k == {_bkey(_n)})" for _n in _NAME_IDS)
-    + f" for k in {_RECS}))"
+    + f" for k in {_KEYS}))"
 )
 _NAME_ENS["not-requested"] = "implies('name' not in self.tables, self.otf.get('name') == old(self.otf.get('name')))"
 
@@ -1304,11 +1314,11 @@ contract(
     props=_NAME_PROPS,
     params={"self": Ref("OutlineCompilerN")},
     ensures=_NAME_ENS,
-    canaries={"empty": f"'name' in self.tables and len({_RECS}) == 0"},
-    ghost_vars={"built": (Dict(NKEY, STR), "{}"), "src": (Dict(NKEY, INT), "{}")},
+    canaries={"no-family-name": f"'name' in self.tables and (1, 3, 1, 1033) not in {_KEYS}"},
+    ghost_vars={"built": (Opt(Map(NKEY, STR)), "None"), "built_keys": (Set(NKEY), "set()"), "src": (Dict(NKEY, INT), "{}")},
     ghost={
         # after the first loop: the records built from the info attributes
-        "for nameId in sorted(nameVals.keys()):": ["built = name.recs"],
+        "for nameId in sorted(nameVals.keys()):": ["built = name.recs", "built_keys = name.keyset"],
         # second loop: which explicit record (position) set a key last
         "nameVal = nameRecord['string']": ["src = {**src, (nameId, platformId, platEncId, langId): i}"],
     },
@@ -1317,9 +1327,9 @@ contract(
             index="i",
             invariants={
                 "is-table": "self.otf.get('name') is not None and name == self.otf['name']",
-                "records": f"all(implies(not any({_rk_same('b', 'a')} for b in range(a + 1, i)), {_rk('a')} in name.recs and name.recs[{_rk('a')}] == {_R}[a]['string']) for a in range(i))",
-                "built-kept": f"all(implies(not any({_rk('a')} == k for a in range(i)), k in name.recs and name.recs[k] == built[k]) for k in built)",
-                "nothing-else": f"all(k in built or (k in src and 0 <= src[k] and src[k] < i and {_rk('src[k]')} == k) for k in name.recs)",
+                "records": f"all(implies(not any({_rk_same('b', 'a')} for b in range(a + 1, i)), {_rk('a')} in name.keyset and name.recs[{_rk('a')}] == {_R}[a]['string']) for a in range(i))",
+                "built-kept": f"all(implies(not any({_rk('a')} == k for a in range(i)), k in name.keyset and name.recs[k] == built[k]) for k in built_keys)",
+                "nothing-else": f"all(k in built_keys or (k in src and 0 <= src[k] and src[k] < i and {_rk('src[k]')} == k) for k in name.keyset)",
             },
         )
     },
